@@ -58,6 +58,15 @@ type ModuleSpec struct {
 	// the YAML reader builds; a module assembled in code may carry others)
 	LinkW   []float64 `json:"link_w,omitempty"`
 	LinkRec []bool    `json:"link_rec,omitempty"`
+	// trait ids of the module's links (absent or 0: no trait, what the YAML reader builds)
+	LinkTr []int `json:"link_tr,omitempty"`
+}
+
+func (m ModuleSpec) linkTr(i int) int {
+	if i < len(m.LinkTr) {
+		return m.LinkTr[i]
+	}
+	return 0
 }
 
 func (m ModuleSpec) linkW(i int) float64 {
@@ -127,11 +136,17 @@ func (s GenomeSpec) Build() *genetics.Genome {
 		if ms.Trait != 0 {
 			cn.Trait = traitById[ms.Trait]
 		}
+		modLink := func(k int, in, out *network.NNode) *network.Link {
+			if tr := ms.linkTr(k); tr != 0 {
+				return network.NewLinkWithTrait(traitById[tr], ms.linkW(k), in, out, ms.linkRec(k))
+			}
+			return network.NewLink(ms.linkW(k), in, out, ms.linkRec(k))
+		}
 		for k, id := range ms.Ins {
-			cn.Incoming = append(cn.Incoming, network.NewLink(ms.linkW(k), nodeById[id], cn, ms.linkRec(k)))
+			cn.Incoming = append(cn.Incoming, modLink(k, nodeById[id], cn))
 		}
 		for k, id := range ms.Outs {
-			cn.Outgoing = append(cn.Outgoing, network.NewLink(ms.linkW(len(ms.Ins)+k), cn, nodeById[id], ms.linkRec(len(ms.Ins)+k)))
+			cn.Outgoing = append(cn.Outgoing, modLink(len(ms.Ins)+k, cn, nodeById[id]))
 		}
 		mods[i] = genetics.NewMIMOGene(cn, ms.Innov, ms.Mut, ms.En)
 	}
@@ -178,6 +193,7 @@ func Snapshot(g *genetics.Genome) GenomeSpec {
 		for _, l := range append(append([]*network.Link{}, cg.ControlNode.Incoming...), cg.ControlNode.Outgoing...) {
 			ms.LinkW = append(ms.LinkW, l.ConnectionWeight)
 			ms.LinkRec = append(ms.LinkRec, l.IsRecurrent)
+			ms.LinkTr = append(ms.LinkTr, traitId(l.Trait))
 		}
 		s.Modules = append(s.Modules, ms)
 	}
@@ -247,6 +263,9 @@ func DiffSpec(a, b GenomeSpec) string {
 		for k := 0; k < len(x.Ins)+len(x.Outs); k++ {
 			if x.linkW(k) != y.linkW(k) || x.linkRec(k) != y.linkRec(k) {
 				return fmt.Sprintf("module[%d]: link %d has weight %v recurrent %v on one side, weight %v recurrent %v on the other", i, k, x.linkW(k), x.linkRec(k), y.linkW(k), y.linkRec(k))
+			}
+			if x.linkTr(k) != y.linkTr(k) {
+				return fmt.Sprintf("module[%d]: link %d carries trait %d on one side, trait %d on the other", i, k, x.linkTr(k), y.linkTr(k))
 			}
 		}
 	}
